@@ -153,7 +153,7 @@ func checkMain(args []string) int {
 		fmt.Fprintf(os.Stderr, "UNDECIDED property=%s: %v\n", id, err)
 		return 2
 	}
-	timeout := 30
+	timeout := 60
 	all := false
 	if *tier == "thorough" {
 		timeout = 300
